@@ -8,9 +8,12 @@ package virtualtable
 // reach (their helpers are assumed to touch files only).
 // Checked by /verif/bin/govc.  Comment-only file.
 
+// reads the alias file of the index into a map it allocates itself (never one
+// of the in-memory alias maps)
 //@ func GetAliases
 //@   assumed
 //@   pure
+//@   ensures forallstr(a, result0 != aliasToIndexNames[orgid][a])
 //@ end
 //@ func removeAliasFile
 //@   assumed
@@ -22,9 +25,26 @@ package virtualtable
 //@ end
 
 //@ func RemoveAliases
-//@   props C13
+//@   props C13 C20
 //@   ensures [alias-no-longer-resolves] implies(result == nil, forall(k, 0, len(aliases), !haskey(aliasToIndexNames[orgid][aliases[k]], indexName)))
+// C20 (one object's operations never disturb another's): the aliases of every
+// OTHER index are exactly what they were, including an alias name that the
+// other index shares with this one.
+//@   ensures [other-indexes-keep-their-aliases] forallstr(a, forallstr(x, implies(x != indexName, haskey(aliasToIndexNames[orgid][a], x) == old(haskey(aliasToIndexNames[orgid][a], x)))))
 //@   loop 1:
 //@     invariant 0 <= i && i <= alLen && alLen == len(aliases)
 //@     invariant forall(k, 0, i, !haskey(aliasToIndexNames[orgid][aliases[k]], indexName))
+//@     invariant [frame] forallstr(a, forallstr(x, implies(x != indexName, haskey(aliasToIndexNames[orgid][a], x) == old(haskey(aliasToIndexNames[orgid][a], x)))))
+//@ end
+
+// C13 (a search reads only the indexes its expression names): a wildcard
+// index expression is matched against whole index / alias names, i.e. the
+// regular expression it is turned into is anchored at both ends, so that
+// `*-prod` does not select `app-prod-archive`.  startsWithCaret /
+// endsWithDollar are uninterpreted predicates that govc derives from the
+// literal operands of the string concatenation that builds the expression.
+//@ func ExpandAndReturnIndexNames
+//@   props C13
+//@   site call regexp.Compile #1:
+//@     assert [wildcard-matches-whole-names] uf("startsWithCaret", bool, arg0) && uf("endsWithDollar", bool, arg0)
 //@ end
